@@ -252,6 +252,12 @@ impl<'a> VisitMut for Marker<'a> {
                     }
                 }
             }
+            // before-if / then-start anchors on `if COND { .. }` statements
+            if let Stmt::Expr(Expr::If(ife), _) = &mut st {
+                let cond = norm(&ife.cond.to_token_stream().to_string());
+                for (c, t) in self.spec.before_if.clone() { if c == cond { let mk = self.marker(&t, vec![], "before-if"); out.push(mk); } }
+                for (c, t) in self.spec.then_start.clone() { if c == cond { let mk = self.marker(&t, vec![], "then-start"); ife.then_branch.stmts.insert(0, mk); } }
+            }
             let mut f = Finder { pats: &self.spec.before_call, found: vec![] };
             syn::visit::Visit::visit_stmt(&mut f, &st);
             let found_b = f.found;
@@ -619,14 +625,15 @@ fn main() {
     let mut gen = Gen { repo, features: &features, probes, rules: rules0, items_ts: TokenStream::new(), all_hints: vec![], hint_base: 0, probe_n: 1, fns: vec![], specs: BTreeMap::new(), shape_results: vec![] };
     let mut pre: Vec<String> = vec![];
     let mut inside: Vec<String> = vec![];
+    // the unit's own include order wins; includes of imported units that it does not list are appended
+    for p in &unit.pre { if !pre.contains(p) { pre.push(p.clone()); } }
+    for p in &unit.inside { if !inside.contains(p) { inside.push(p.clone()); } }
     for imp in &unit.imports {
         let iu = spec::parse_unit(&std::fs::read_to_string(base.join(imp)).unwrap());
         for p in &iu.pre { if !pre.contains(p) { pre.push(p.clone()); } }
         for p in &iu.inside { if !inside.contains(p) { inside.push(p.clone()); } }
         gen.take_unit(&iu, true);
     }
-    for p in &unit.pre { if !pre.contains(p) { pre.push(p.clone()); } }
-    for p in &unit.inside { if !inside.contains(p) { inside.push(p.clone()); } }
     gen.take_unit(&unit, false);
 
     // format the plain-Rust items
@@ -853,8 +860,8 @@ fn main() {
     for f in &gen.fns {
         if f.contract_only { continue; }
         let spec = &gen.specs[&f.path];
-        let n_tpl = spec.before_call.len() + spec.after_call.len() + spec.after_let.len();
-        let inst: usize = f.hint_kinds.iter().filter(|(k, _)| *k == "before-call" || *k == "after-call" || *k == "after-let").map(|(_, v)| *v).sum();
+        let n_tpl = spec.before_call.len() + spec.after_call.len() + spec.after_let.len() + spec.before_if.len() + spec.then_start.len();
+        let inst: usize = f.hint_kinds.iter().filter(|(k, _)| *k == "before-call" || *k == "after-call" || *k == "after-let" || *k == "before-if" || *k == "then-start").map(|(_, v)| *v).sum();
         if n_tpl > 0 && inst < n_tpl { eprintln!("vx: note: {} has {} call/let hint templates but only {} instantiations (an anchor matches nothing?)", f.path, n_tpl, inst); }
     }
     eprintln!("vx: unit {} functions={} (contract-only {}) hints={} probes={} outlined={:?}", unit.name, gen.fns.len(), gen.fns.iter().filter(|f| f.contract_only).count(), gen.fns.iter().map(|f| f.hints).sum::<usize>(), gen.probe_n - 1, gen.rules.outlined);
